@@ -35,6 +35,7 @@ type FuncFacts struct {
 	GlobalsWritten []string   `json:"globals_written,omitempty"`
 	Callees        []string   `json:"callees,omitempty"`
 	External       []string   `json:"external,omitempty"`
+	TextHash       string     `json:"text_hash,omitempty"`
 	Dynamic        []string   `json:"dynamic,omitempty"`
 	MapRanges      []MapRange `json:"map_ranges,omitempty"`
 	Locks          []string   `json:"locks,omitempty"`
